@@ -146,6 +146,7 @@ func VTypeKindOf(v Value) ast.TypeKind {
 
 // VConforms: conforms, for contracts of other packages.
 func VConforms(v Value, t ast.Type) bool { return conforms(v, t) }
+func VIsScalarType(t ast.Type) bool       { return isScalarType(t) }
 
 // isScalarType: the types whose values carry no nested values.
 func isScalarType(t ast.Type) bool {
